@@ -6,6 +6,11 @@ import SaModel.Build.Finish
 import SaModel.Build.Dec
 import SaModel.Spec.Interp
 import SaModel.Spec.WF
+import SaModel.Spec.Blame
+import SaModel.Codec.Decimal
+import SaModel.Codec.Span
+import SaModel.Codec.Time
+import SaModel.Codec.Calendar
 /-
 suite `build`: `to_marrow(fields, rows)`.
   agree : the operational builder model (SaModel/Build) reproduces the implementation's outcome class, on
@@ -20,12 +25,32 @@ suite `build`: `to_marrow(fields, rows)`.
 namespace Driver.Suites.Build
 open Lean Driver SaModel SaModel.Build SaModel.Spec
 
+def codecUnit : SaModel.TimeUnit → SaModel.Codec.TimeUnit
+  | .second => .second | .millisecond => .millisecond | .microsecond => .microsecond | .nanosecond => .nanosecond
+
+/-- The external functions of the builder model: float display strings and the float product of the decimal
+float path come from the case (`aux`), decimal and temporal string conversions are the codec models of
+C15 / C14 (SaModel/Codec) — the same definitions their theorems are about. -/
 def extOfAux (aux : Json) : Ext :=
   let tbl (k : String) (bits : Nat) : String :=
     match aux.getObjVal? k with
     | .ok t => (t.getObjValAs? String (toString bits)).toOption.getD ""
     | .error _ => ""
-  { f32Str := tbl "f32_str", f64Str := tbl "f64_str" }
+  let decCast (p : Nat) (s : Int) (is64 : Bool) (bits : Nat) : R Int :=
+    let key := s!"{if is64 then "f64" else "f32"}:{bits}:{s}"
+    match (aux.getObjVal? "dec_cast").toOption.bind (fun t => (t.getObjVal? key).toOption) with
+    | some e =>
+      match (e.getObjValAs? Bool "finite").toOption, (e.getObjVal? "cast").toOption.bind (fun c => (jsonInt? c).toOption) with
+      | some fin, some c => SaModel.Decimal.serializeFloat p s fin c
+      | _, _ => fail "aux: bad dec_cast entry"
+    | none => fail "aux: missing dec_cast entry"
+  { f32Str := tbl "f32_str", f64Str := tbl "f64_str",
+    parseDecimal := fun p s txt => SaModel.Decimal.serializeStr p s txt.toUTF8.toList,
+    floatToDecimal := decCast,
+    parseDate := fun is64 s => SaModel.Codec.dateOfString (if is64 then .date64 else .date32) s.toList,
+    parseTime := fun u s => SaModel.Codec.timeOfString (match u with | .second | .millisecond => .time32 | _ => .time64) (codecUnit u) s.toList,
+    parseTimestamp := fun u utc s => SaModel.Codec.timestampOfString (codecUnit u) utc s.toList,
+    parseDuration := fun u s => SaModel.Codec.durationOfString s.toList (codecUnit u) }
 
 def isMalformed {α} : R α → Bool
   | .error (.err "malformed-stream") => true
@@ -118,7 +143,7 @@ def handle (j : Json) : Except String Verdict := do
   let cls := implCls impl
   let model := toMarrow ext fields rows
   let interps := rows.map (interpRow ext fields)
-  let anyMalformed := interps.any isMalformed
+  let anyMalformed := interps.any isMalformed || rows.any containsMalformed
   let firstBad := interps.findIdx? (fun r => !r.isOk)
   let tags := (fields.flatMap schemaTags).eraseDups ++ (rows.map (fun r => "row:" ++ r.kind)).eraseDups ++
     [s!"impl:{cls}", s!"rows:{if rows.length == 0 then "0" else if rows.length < 8 then "<8" else "≥8"}"]
@@ -136,11 +161,18 @@ def handle (j : Json) : Except String Verdict := do
       let ia := annOfImpl ((impl.getObjVal? "err").toOption.getD Json.null)
       let ma := model.ann
       let annEq := ia == ma
-      -- C18 (serializer half): the error names a field, and it is the field the model blames
-      let c18 := if ia.lookup "field" == none || ia.lookup "data_type" == none then "fail" else if annEq then "pass" else "na"
+      -- C18 (serializer half): the error names a field (and a data type), and the field is one of the positions
+      -- at which the documented mapping is undefined for the first unrepresentable row (Spec/Blame.lean)
+      let blamed := match firstBad.bind (fun i => rows[i]?) with
+        | some row => blameRow ext fields row
+        | none => []
+      let c18 :=
+        if ia.lookup "field" == none || ia.lookup "data_type" == none then "fail"
+        else if anyMalformed || blamed.isEmpty then "na"
+        else if blamed.contains ((ia.lookup "field").getD "") then "pass" else "fail"
       return { agree := annEq, spec := [("C16", c16), ("C05", "pass"), ("C01", "na"), ("C03", "na"), ("C18", c18)], tags := "err" :: tags,
-               sig := if annEq then "" else s!"build/ann/{(ma.lookup "data_type").getD "-"}",
-               why := if annEq then "" else s!"annotations: model {repr ma}, implementation {repr ia}" }
+               sig := if !annEq then s!"build/ann/{(ma.lookup "data_type").getD "-"}" else if c18 == "fail" then s!"build/C18/{(ia.lookup "data_type").getD "-"}" else "",
+               why := if !annEq then s!"annotations: model {repr ma}, implementation {repr ia}" else if c18 == "fail" then s!"blamed field {repr (ia.lookup "field")} not among {repr blamed}" else "" }
     else
       return { agree := true, spec := [("C16", c16), ("C05", "na"), ("C01", "na"), ("C03", "na"), ("C18", "na")], tags := tags }
   | .ok marrs =>
